@@ -12,6 +12,51 @@ use lightmotif::seq::{EncodedSequence, StripedSequence};
 
 use crate::rng::Rng;
 
+/// A user-defined alphabet with five regular symbols and a wildcard (public traits): an odd number
+/// of regular symbols, not a multiple of four.
+#[derive(Clone, Copy, Debug, Default, PartialEq, Eq)]
+#[repr(u8)]
+pub enum L6 {
+    A = 0,
+    B = 1,
+    C = 2,
+    D = 3,
+    E = 4,
+    #[default]
+    X = 5,
+}
+
+const L6_ALL: [L6; 6] = [L6::A, L6::B, L6::C, L6::D, L6::E, L6::X];
+
+impl Symbol for L6 {
+    fn as_index(&self) -> usize {
+        *self as usize
+    }
+    fn as_ascii(&self) -> u8 {
+        b"ABCDEX"[*self as usize]
+    }
+    fn from_ascii(c: u8) -> Result<Self, lightmotif::err::InvalidSymbol> {
+        match b"ABCDEX".iter().position(|&x| x == c) {
+            Some(i) => Ok(L6_ALL[i]),
+            None => Err(lightmotif::err::InvalidSymbol(c as char)),
+        }
+    }
+}
+
+#[derive(Clone, Copy, Debug, Default, PartialEq, Eq)]
+pub struct Abc6;
+
+impl Alphabet for Abc6 {
+    type Symbol = L6;
+    type K = lightmotif::num::U6;
+    fn symbols() -> &'static [L6] {
+        &L6_ALL
+    }
+    fn as_str() -> &'static str {
+        "ABCDEX"
+    }
+}
+
 pub fn k_of<A: Alphabet>() -> usize {
     A::K::USIZE
 }
